@@ -244,16 +244,18 @@ pub fn linearizability(p: &Program, r: &RunResult, stats: &mut LinStats, flavour
                 for o in sorted {
                     lines.push(format!("  [{}..{}] t{} op{} {:?}{}", o.inv, if o.ret == u64::MAX { "pending".to_string() } else { o.ret.to_string() }, o.thread, o.idx, o.kind, if o.optional { " (optional)" } else { "" }));
                 }
+                let signature = tree_list_walk_signature(r, i0, &ops);
                 out.push(v(
                     "not-linearizable",
                     format!(
-                        "key {}: no sequential order explains the history (initial state {:?}; longest explainable prefix has {} of {} operations, state after it {:?})\n{}",
+                        "key {}: no sequential order explains the history (initial state {:?}; longest explainable prefix has {} of {} operations, state after it {:?})\n{}{}",
                         k,
                         i0,
                         f.best_prefix.len(),
                         ops.len(),
                         f.state_after,
-                        lines.join("\n")
+                        lines.join("\n"),
+                        signature
                     ),
                 ));
             }
@@ -315,6 +317,43 @@ pub fn collects(r: &RunResult) -> Vec<Violation> {
         }
     }
     out
+}
+
+/// Recognises one specific anomaly (finding F9) in a per-key history that is not linearizable:
+/// a lookup N answered "absent" after it had walked the linear list of a tree bin, it returned
+/// while a successful removal R of the key was still in flight, a later lookup S that started
+/// after N had returned - and before R returned - still found the key, and without N the history
+/// is linearizable. (`remove_tree_node` unlinks the node from the linear list first and from the
+/// tree only later, under the root lock; a reader that walked most of the list during an earlier
+/// writer's critical section and reads the last `next` pointer in between sees the list without
+/// the node while tree-path readers still find it.) Returns a marker line for the violation text,
+/// or nothing.
+fn tree_list_walk_signature(r: &RunResult, init: St, ops: &[KOp]) -> String {
+    let absent = |k: &KKind| matches!(k, KKind::Get(None) | KKind::GetKV(None) | KKind::Contains(false) | KKind::SetGet(None));
+    let present = |k: &KKind| matches!(k, KKind::Get(Some(_)) | KKind::GetKV(Some(_)) | KKind::Contains(true) | KKind::SetGet(Some(_)));
+    let removed = |k: &KKind| matches!(k, KKind::Remove(Some(_)) | KKind::RemoveEntry(Some(_)) | KKind::SetRemove(true) | KKind::Compute { saw: Some(_), out: None, .. });
+    for (i, n) in ops.iter().enumerate() {
+        if !absent(&n.kind) || n.ret == u64::MAX {
+            continue;
+        }
+        let walked_list = r.outcome.events.iter().any(|e| e.ev == Ev::ReaderListFallback && e.thread == n.thread && e.clock >= n.inv && e.clock <= n.ret);
+        if !walked_list {
+            continue;
+        }
+        let in_flight_removal = ops.iter().any(|x| removed(&x.kind) && x.inv < n.ret && n.ret < x.ret && ops.iter().any(|s| present(&s.kind) && s.inv > n.ret && s.inv < x.ret));
+        if !in_flight_removal {
+            continue;
+        }
+        let mut rest: Vec<KOp> = ops.to_vec();
+        rest.remove(i);
+        if lin::check(init, &rest).is_ok() {
+            return format!(
+                "\n  [signature F9: the lookup of thread {} at [{}..{}] walked the linear list of a tree bin and reported the key absent while a removal that had unlinked the node from that list had not yet removed it from the tree; a later lookup still found it; without that lookup the history is linearizable]",
+                n.thread, n.inv, n.ret
+            );
+        }
+    }
+    String::new()
 }
 
 /// Relations between the shared collection and its never-modified twin (`==` in all owned/ref
